@@ -1171,9 +1171,11 @@ pub fn run_bpe(ctx: &mut Ctx, c03: bool) {
 pub fn run_c04(ctx: &mut Ctx) {
     if ctx.first_shard() {
         // every tokenizer kind with special-token lists that do / do not contain the unknown token and the default names
-        let lists: [&[&str]; 7] = [&["<pad>"], &["<pad>", "<s>", "</s>"], &["<unk>", "<pad>"], &["<pad>", "<unk>", "<bos>", "<eos>"], &["<x>", "<pad>"], &["<\u{fb01}n>", "<pad>", "<unk>", "<\u{ff12}>"],
+        let lists: [&[&str]; 8] = [&["<pad>"], &["<pad>", "<s>", "</s>"], &["<unk>", "<pad>"], &["<pad>", "<unk>", "<bos>", "<eos>"], &["<x>", "<pad>"], &["<\u{fb01}n>", "<pad>", "<unk>", "<\u{ff12}>"],
             // single-character special tokens (one code point, several bytes)
-            &["\u{a7}", "<pad>", "\u{20ac}", "\u{e9}", "\u{1F600}"]];
+            &["\u{a7}", "<pad>", "\u{20ac}", "\u{e9}", "\u{1F600}"],
+            // the empty string as a special token (the constructors accept it: it is an entry like any other)
+            &["<x>", "", "<pad>"]];
         for l in lists {
             let tokens: Vec<String> = l.iter().map(|x| x.to_string()).collect();
             let c = Common { tokens: tokens.clone(), pad: "<pad>".into(), prefix: vec![tokens[0].clone()], suffix: vec![] };
